@@ -99,6 +99,23 @@ func c11Bracket(c *Ctx) *RuleResult {
 	r := &RuleResult{Rule: "C11.bracket", Floor: 8,
 		Doc: "every storage call made on behalf of a running action is bracketed by Suspend/Resume on all paths: in each method of the suspending decorators a Suspend() is matched by exactly one Resume() before returning, except for methods returning a (lazily read) buffer, which must NOT resume themselves but hand the Resume to the buffer's completion handler (Done)"}
 	p := c.P
+	// methods that hand their object's Suspendable to a completion handler (composite literal field)
+	handlerBuilders := mayDo(p.Units("pkg/blobstore", "pkg/cas"), func(x *FuncUnit, n ast.Node) bool {
+		kv, ok := n.(*ast.KeyValueExpr)
+		if !ok {
+			return false
+		}
+		tv, ok := x.Info().Types[kv.Value]
+		if !ok || !namedIs(tv.Type, modPath+"/"+clockPkg, "Suspendable") {
+			return false
+		}
+		// the value is a field of the method's receiver
+		if x.Decl.Recv == nil || len(x.Decl.Recv.List[0].Names) == 0 {
+			return false
+		}
+		sel, ok := ast.Unparen(kv.Value).(*ast.SelectorExpr)
+		return ok && exprStr(sel.X) == x.Decl.Recv.List[0].Names[0].Name
+	})
 	for _, u := range p.Units("pkg/blobstore", "pkg/cas") {
 		if u.Decl.Recv == nil || len(u.Decl.Recv.List[0].Names) == 0 {
 			continue
@@ -142,8 +159,19 @@ func c11Bracket(c *Ctx) *RuleResult {
 				return 0
 			},
 			Transfer: func(n ast.Node, key string) bool {
-				kv, ok := n.(*ast.KeyValueExpr)
-				return ok && exprStr(kv.Value) == key
+				if kv, ok := n.(*ast.KeyValueExpr); ok && exprStr(kv.Value) == key {
+					return true
+				}
+				// a helper method of the same object that builds the completion handler from the
+				// object's own Suspendable
+				if call, ok := n.(*ast.CallExpr); ok {
+					if fn := calleeOf(info, call); fn != nil && handlerBuilders[fn] {
+						if sel, ok := ast.Unparen(call.Fun).(*ast.SelectorExpr); ok && strings.HasPrefix(key, exprStr(sel.X)+".") {
+							return true
+						}
+					}
+				}
+				return false
 			},
 		}
 		if returnsBuffer {
@@ -324,6 +352,6 @@ func init() {
 		Level:       "other",
 		Explanation: "Structural clauses only: the hard cap d + maximumSuspension on the underlying context/timer; no negative time credit for caller-supplied timestamps; Suspend/Resume bracketing of every decorated storage call on all paths, with buffer-returning methods handing Resume to the buffer's Done handler; the run context is derived from the executor's clock with the action's timeout and the duration is read after Done; bb_worker wires one SuspendableClock into executor and decorators. The re-arm arithmetic, threshold handling and accounting of overlapping suspensions over timelines are NOT decided.",
 		Assumptions: []string{"bb-storage buffers call Done exactly once when fully consumed or discarded"},
-		Rules:       []RuleFunc{c11Cap, c11Bracket, c11RunContext, c11Transitions, c11ContextErr},
+		Rules:       []RuleFunc{c11Cap, c11Bracket, c11RunContext, c11Transitions, c11ContextErr, c11Init},
 	})
 }
